@@ -178,8 +178,13 @@ class Builder:
                     return ir.Bin('<<', ir.Lit(v >> sh), ir.Lit(sh))
             return ir.Bin('|', ir.Lit(v & ~1), ir.Lit(v & 1)) if v >= 0 else ir.Un('-', ir.Lit(-v))
         if k == 4:
-            # (parentheses not at the very start: loads, stores and jalr take a leading parenthesis for the imm(reg) syntax)
-            return ir.Bin('-', ir.Lit(v + a), ir.Paren(ir.Bin('*', ir.Lit(1), ir.Lit(a))))
+            # parentheses that matter for the value; not at the very start of a top-level operand (loads, stores and jalr take a
+            # leading parenthesis for the imm(reg) syntax)
+            m = self.pick([2, 3, 4])
+            if v % m == 0:
+                inner = ir.Paren(ir.Bin('+', ir.Lit(a), ir.Lit(v // m - a)))
+                return ir.Bin('*', inner, ir.Lit(m)) if (not top and self.chance(0.5)) else ir.Bin('*', ir.Lit(m), inner)
+            return ir.Bin('-', ir.Lit(v + a), ir.Paren(ir.Bin('-', ir.Lit(2 * a), ir.Lit(a))))
         if k == 5 and names:
             n = self.pick(names)
             self.tags.add('const_operand')
@@ -323,7 +328,7 @@ class Builder:
             c = ir.ConstDef(name, reg=n)
             self.cvals[name] = ('reg', n)
         elif kind == 'chr':
-            ch = self.pick('AZaz09 ?!+-*/<>=_.:;@$%^&|~[]{}')
+            ch = self.pick('AZaz09 ?!+-*/<>=_.:;@$%^&|~[]{}\t\t')     # (also a literal TAB between the quotes)
             c = ir.ConstDef(name, value=ir.Chr(ch))
             self.cvals[name] = ord(ch)
         else:
@@ -605,7 +610,7 @@ class Builder:
             return ir.Align(self.pick([2, 4, 4, 8, 16]))
         if self.chance(self.p.get('p_big_align', 0.0) * 2):
             return ir.Align(self.pick([1024, 2048, 4096, 4096, 8192]))
-        return ir.Align(self.pick([1, 1, 1, 2, 3, 4, 5, 6, 7, 8, 12, 16, 32, 64, 100, 128, 255, 256, 1000, 4096])
+        return ir.Align(self.pick([1, 1, 1, 2, 3, 4, 5, 6, 7, 8, 12, 16, 32, 64, 100, 128, 255, 256, 257, 512, 1000, 4096])
                         if self.chance(0.6) else self.i(1, 64))
 
     # -- transfers ---------------------------------------------------------------------------
@@ -628,6 +633,10 @@ class Builder:
         """A branch / jump (real instruction) whose target is a constant absolute address, written as the bare constant name."""
         self.tags.add('offset_to_constant')
         K = self.pick(self.addr_consts)
+        if self.chance(0.35):
+            # through a pseudo-instruction (call / tail to a ROM routine, j, a one-register branch)
+            name = self.pick(['call', 'tail', 'call', 'tail', 'j', 'jal', 'beqz', 'bnez'])
+            return ir.Pseudo(name, ([self.reg(pool=[8, 9, 15, 5])] if name in ('beqz', 'bnez') else []) + [K])
         if self.chance(0.5):
             comp = self.chance(self.p['p_compressible'])
             mn = self.pick(['beq', 'bne']) if comp else self.pick(sorted(rvref.BRANCHES))
@@ -789,6 +798,8 @@ class Builder:
             a = self.align_item()
             if a.n % 2:
                 return [a, ir.Align(self.pick([2, 4]))]
+            if self.chance(0.25):
+                return [a, ir.Align(a.n)]      # the same alignment again: already aligned, no byte may be added
             return [a]
         if self.chance(0.12):
             return [self.numeric_transfer()]
@@ -931,6 +942,11 @@ class Builder:
             elif it.kind == 'pseudo' and it.name in ('j', 'jal'):
                 tgt, limit = it.ops[0], (1 << 20) - 4096
             if tgt is None:
+                continue
+            if tgt not in labpos:
+                # a constant (absolute) target: out of reach -> nop
+                if not isinstance(self.cvals.get(tgt), int) or abs(self.cvals[tgt] - offs[i]) > limit:
+                    items[i] = ir.Pseudo('nop', [])
                 continue
             # crafted groups are adjacent to their own label by construction; recognise them by distance class
             d = abs(labpos[tgt] - offs[i])
